@@ -93,6 +93,33 @@ def check(prog, rep):
                 if b in after and (i != j or a in after):
                     twice = (ws[i], ws[j])
         rep.check(twice is None, "PW-ATOMIC", fi.short, "one writing statement per path", f"{len(ws)} writing call site(s), no two on one path", f"`{norm(twice[0])[:50]}` and then `{norm(twice[1])[:50]}` run on the same path: on the auto-committing store these are two commits, so a crash in between leaves the event half-rewritten (e.g. deleted but not re-inserted), a state no prefix of the issued writes produces" if twice else "", fi.loc(twice[1]) if twice else fi.loc())
+    # a bucket-level operation on the store that commits every statement: the order of its statements is the order of the
+    # states a crash can leave behind
+    rep.rule("PW-ORDER", "PeeweeStorage.delete_bucket removes the bucket's event rows before the bucket row (every path): every state a crash can leave has each event row under an existing bucket row; with the bucket row gone first the events stay behind under a key that the next bucket created is given, and show up in it")
+    from ..sqlmodel import peewee_chains
+
+    fi = pcls.methods.get("delete_bucket")
+    if fi is not None:
+        g = cfg_of(fi)
+        ch = [c for c in peewee_chains(prog) if c.fi is fi and c.op in ("delete", "delete_instance", "truncate_table", "delete_by_id")]
+        ev = [c for c in ch if c.model == "EventModel"]
+        bk = [c for c in ch if c.model == "BucketModel"]
+        if not bk:
+            rep.undecided("PW-ORDER", fi.short, "statement order", "no BucketModel delete chain found in delete_bucket", fi.loc())
+        elif not ev:
+            rep.violation("PW-ORDER", fi.short, "statement order", "delete_bucket removes the bucket row but never the bucket's events: they stay behind under the old key", fi.loc())
+        else:
+            bad = None
+            for b in bk:
+                bn = g.node_of(b.node)
+                for e in ev:
+                    en = g.node_of(e.node)
+                    if en in g.reach_avoiding([bn]) and bn not in g.reach_avoiding([en]):
+                        bad = bad or (b, e)
+                ok_dom = all(any(g.dominates(g.node_of(e.node), bn) for e in ev) for _ in [0])
+                if not ok_dom and bad is None:
+                    bad = (b, None)
+            rep.check(bad is None, "PW-ORDER", fi.short, "statement order", "events deleted first, bucket row last", (f"`{bad[0].text()[:60]}` runs " + (f"before `{bad[1].text()[:60]}`" if bad[1] is not None else "on a path on which the events were not deleted before") + ": each statement is its own commit here, so a crash in between leaves the bucket's events without a bucket row; the key is handed to the next bucket created, which then shows events never inserted into it") if bad else "", fi.loc(bad[0].node) if bad else fi.loc())
     # positive fixture: the rule must be able to match
     import os
     fx = os.path.join(os.path.dirname(os.path.dirname(os.path.dirname(__file__))), "fixtures", "peewee_atomic.py")
